@@ -19,7 +19,7 @@ CICADA = os.path.join(hsupport.VERIF, 'build/bin/debug/cicada')
 BUDGET = {'quick': 900, 'thorough': 3000}
 BOUNDS = {'quick': dict(max_nodes=5, depth=2, while_k=2, sym_plain=2), 'thorough': dict(max_nodes=6, depth=3, while_k=3, sym_plain=3)}
 ASSUMPTIONS = [
-    'scripts are enumerated ASTs over {command, if / else if / else, for over 1-3 words, while, break, continue} up to the node and depth bound (thorough: 6-node trees at depth 2, smaller ones at depth 3), rendered in the newline spelling and in the `; then` / `; do` spelling; exit statuses of all commands and conditions are symbolic',
+    'scripts are enumerated ASTs over {command, if / else if / else, for over 1-3 words, while, break, continue} up to the node and depth bound (thorough: 6-node trees at depth 2, smaller ones at depth 3), rendered in the newline spelling and in the `; then` / `; do` spelling; plus 16 directed deep chains (break / continue two and three if-levels below their loop); exit statuses of all commands and conditions are symbolic',
     'pest is modelled (PEG evaluator over /repo/src/parsers/grammar.pest) - trusted base; every script is also parsed by the real parser in the binary replay of violations',
     'stub execute::run_command_line: records its line and returns an arbitrary status (conditions: always symbolic; plain commands: the first sym_plain executions symbolic, later ones concrete since only `set -e` (C15) reads them); a `while` condition is forced to fail after K successful iterations (environment contract) so every path terminates',
     'unbalanced scripts (a block keyword missing) are negatives: the oracle demands a diagnostic and that no command after the unbalanced construct runs',
@@ -130,6 +130,20 @@ def instances(tier, seed):
             for style in ('nl', 'then'):
                 if style == 'then' and not any(s[0] in ('if', 'for', 'while') for s in walk(lab)): continue
                 out.append(dict(name='ast%d/%s' % (idx, style), ast=lab, style=style, kind='wf'))
+    # directed deep chains (beyond the quick depth bound): break / continue two and three `if` levels below their loop,
+    # with and without else arms, followed by a command that must be skipped
+    def chain(loop, kw, levels, with_else):
+        inner = [('cmd',), (kw,), ('cmd',)]
+        for _ in range(levels):
+            inner = [('if', [(None, inner)], [('cmd',)] if with_else else None), ('cmd',)]
+        return [(loop, inner), ('cmd',)]
+    for loop in ('for', 'while'):
+        for kw in ('break', 'continue'):
+            for levels in (2, 3):
+                for with_else in (False, True):
+                    lab = label(chain(loop, kw, levels, with_else))
+                    idx += 1
+                    out.append(dict(name='deep%d/%s-%s-%d%s/nl' % (idx, loop, kw, levels, '-else' if with_else else ''), ast=lab, style='nl', kind='wf', keep=True))
     # the 'then' spelling parses to the same tree: thorough explores it for every tree of <= 5 nodes, the newline spelling for all
     if tier == 'thorough':
         out = [o for k, o in enumerate(out) if o['style'] == 'nl' or len(list(walk(o['ast']))) <= 5]
@@ -162,7 +176,7 @@ def instances(tier, seed):
     out.append(dict(name='else-after-fi', ast=[], style='nl', kind='unbalanced', text='if t1\nc1\nfi\nelse\nc2\nfi\n', missing='stray-else'))
     if tier == 'quick' and len(out) > 800:
         m = (len(out) // 700) + 1
-        out = [o for k, o in enumerate(out) if o['kind'] == 'unbalanced' or k % m == (seed % m)]
+        out = [o for k, o in enumerate(out) if o['kind'] == 'unbalanced' or o.get('keep') or k % m == (seed % m)]
     return out
 
 def walk(body):
